@@ -207,6 +207,22 @@ func (ro *Roles) waitListForms(r *Report, rule string) {
 					ro.derivedLookups(a, map[ssa.Value]bool{}, &lks)
 					if len(lks) > 0 && ro.la.isGuardedSlice(a.Type()) {
 						n++
+						// a module helper that only reads the slice it gets (a search, a count) cannot reorder the queue
+						if callee := c.StaticCallee(); callee != nil && callee.Blocks != nil && w.InModule(callee) {
+							idx := -1
+							for i, a2 := range c.Args {
+								if w.Resolve(a2) == a {
+									idx = i
+								}
+							}
+							if idx >= 0 && idx < len(callee.Params) {
+								sf := &sliceFlow{w: w, memo: map[[2]interface{}][]sliceWrite{}, returnCounts: true}
+								if ws := sf.summary(callee, idx, 1); len(ws) == 0 {
+									r.OK(rule, fname+": wait list passed to "+calleeName(c)+" (read-only)", w.InstrPos(in), "the callee neither writes through the slice nor returns it")
+									continue
+								}
+							}
+						}
 						r.Undecided(rule, fname+": wait list passed to "+nameOr(calleeName(c), "a dynamic call"), w.InstrPos(in), "a wait-list slice is handed to another function (e.g. a swap-remove or a sort): its effect on the queue order is not classified")
 					}
 				}
